@@ -1,6 +1,171 @@
 ----------------------------- MODULE GetoptComp -----------------------------
-(* Completion (placeholder, filled in below in the build). *)
+(***************************************************************************)
+(* Shell completion (Parse with COMP_LINE set).  The words of the line     *)
+(* after the program name are parsed with the ordinary parser steps of     *)
+(* module Getopt, in the program's configured mode, until the LAST word is *)
+(* reached as a fresh token; the candidates are then generated at the      *)
+(* command level reached.  If an earlier option consumes the last word as  *)
+(* its value, or the terminator / require-order stop point is passed, the  *)
+(* list is empty.  Post-parse checks (required, unknown policy) do not run.*)
+(***************************************************************************)
 EXTENDS Getopt
-CompOutcome(cfg, orc, words, target) == [miss |-> TRUE]
-CompDiff(cfg, e, r) == {}
+
+Count(s, x) == Cardinality({k \in 1..Len(s) : s[k] = x})
+BagEq(a, b) == Len(a) = Len(b) /\ \A x \in Rng(a) \cup Rng(b) : Count(a, x) = Count(b, x)
+
+EnumSet(S) ==   \* some enumeration of a finite set (order irrelevant: results are compared as bags)
+  LET RECURSIVE F(_)
+      F(T) == IF T = {} THEN <<>> ELSE LET x == CHOOSE y \in T : TRUE IN <<x>> \o F(T \ {x})
+  IN F(S)
+
+StripDashes(w) ==   \* strings.TrimPrefix(strings.TrimPrefix(w, "-"), "-")
+  IF Len(w) >= 1 /\ w[1] = DASH
+  THEN (IF Len(w) >= 2 /\ w[2] = DASH THEN Drop(w, 2) ELSE Drop(w, 1))
+  ELSE w
+
+HelpArgName(cfg, o) ==
+  LET opt == Opt(cfg, o) k == opt.kind IN
+  IF opt.argname # <<>> THEN opt.argname
+  ELSE CASE k \in {"string", "sopt", "sslice"} -> <<"s","t","r","i","n","g">>
+         [] k \in {"int", "iopt", "islice"} -> <<"i","n","t">>
+         [] k \in {"float", "fopt", "fslice"} -> <<"f","l","o","a","t","6","4">>
+         [] k = "smap" -> <<"k","e","y","=","v","a","l","u","e">>
+         [] OTHER -> <<>>
+
+\* values offered for an option: SuggestedValues (ValidValues are installed as suggestions)
+Suggested(cfg, o) == IF Len(Opt(cfg, o).valid) > 0 THEN Opt(cfg, o).valid \o Opt(cfg, o).sugg ELSE Opt(cfg, o).sugg
+
+(* Candidates for a last word w starting with "-" at node n.               *)
+OptionCandidates(cfg, n, w, target) ==
+  LET partial == StripDashes(w)
+      keys    == Keys(cfg, n)
+      hasEq   == FirstIdx(partial, EQ, 1) # 0
+      nameC(k) == IF Opt(cfg, OptOfKey(cfg, n, k)).kind = "bool"
+                  THEN <<DASH, DASH>> \o k ELSE <<DASH, DASH>> \o k \o <<EQ>>
+      names   == [j \in 1..Cardinality({k \in keys : k # <<DASH>> /\ IsPfx(partial, k)}) |->
+                    nameC(EnumSet({k \in keys : k # <<DASH>> /\ IsPfx(partial, k)})[j])]
+      lone    == IF <<DASH>> \in keys /\ w = <<DASH>> THEN <<<<DASH>>>> ELSE <<>>
+      \* values after `--name=`
+      valKeys == IF hasEq THEN {k \in keys : k # <<DASH>> /\ IsPfx(k, partial)} ELSE {}
+      valsOf(k) ==
+        LET o  == OptOfKey(cfg, n, k)
+            sv == Suggested(cfg, o)
+            full(e) == <<DASH, DASH>> \o k \o <<EQ>> \o e
+            keep == SelectSeq(sv, LAMBDA e : IsPfx(w, full(e)))
+        IN [j \in 1..Len(keep) |-> IF target = "bash" THEN keep[j] ELSE full(keep[j])]
+      values  == Concat([j \in 1..Cardinality(valKeys) |-> valsOf(EnumSet(valKeys)[j])])
+      base    == lone \o names \o values
+  IN
+  \* a single candidate that expects a value gets a companion so the shell inserts no space
+  IF Len(base) = 1 /\ Len(base[1]) > 0 /\ base[1][Len(base[1])] = EQ /\ Len(names) = 1 THEN
+     LET k  == CHOOSE kk \in keys : kk # <<DASH>> /\ IsPfx(partial, kk)
+         o  == OptOfKey(cfg, n, k)
+         sv == Suggested(cfg, o)
+     IN IF Len(sv) > 0 THEN base \o [j \in 1..Len(sv) |-> base[1] \o sv[j]]
+        ELSE LET an == HelpArgName(cfg, o) IN
+             base \o << base[1] \o <<"<">> \o (IF an = <<>> THEN <<"v","a","l","u","e">> ELSE an) \o <<">">> >>
+  ELSE base
+
+(* Candidates for a last word that does not start with "-" at node n.       *)
+WordCandidates(cfg, n, w, target) ==
+  LET cmds == EnumSet({Node(cfg, c).name : c \in {c \in Children(cfg, n) : IsPfx(w, Node(cfg, c).name)}})
+      sugg == SelectSeq(Node(cfg, n).sugg, LAMBDA e : IsPfx(w, e))
+      dyn  == IF Node(cfg, n).dynfn THEN Node(cfg, n).dynout ELSE <<>>
+      base == cmds \o sugg \o dyn
+  IN IF Len(base) = 1 /\ target = "bash" THEN <<base[1] \o <<" ">>>> ELSE base
+
+Candidates(cfg, n, w, target) ==
+  IF Len(w) >= 1 /\ w[1] = DASH THEN OptionCandidates(cfg, n, w, target)
+  ELSE WordCandidates(cfg, n, w, target)
+
+(* Parse the earlier words: stop as soon as the last word is about to be    *)
+(* looked at as a fresh token.                                             *)
+RECURSIVE CompRunFrom(_, _, _, _)
+CompRunFrom(cfg, orc, ws, st) ==
+  IF st.phase \notin {"scan", "pair", "intake"} THEN st
+  ELSE IF st.phase = "scan" /\ st.i >= Len(ws) THEN st
+  ELSE CompRunFrom(cfg, orc, ws, Step(cfg, orc, ws, FALSE, st))
+
+(* COMP_LINE is split at runs of white space: empty words vanish, except   *)
+(* that a line ending in white space has one empty last word.              *)
+NormWords(words) ==
+  IF words = <<>> THEN <<>>
+  ELSE LET body == SelectSeq(words, LAMBDA x : x # <<>>) IN
+       IF words[Len(words)] = <<>> THEN Append(body, <<>>) ELSE body
+
+CompOutcome(cfg, orc, words0, target) ==
+  LET words == NormWords(words0)
+      ws == IF words = <<>> THEN <<>> ELSE Tail(words)   \* the first word is the program name
+      st == CompRunFrom(cfg, orc, ws, InitState(cfg, orc, ws))
+  IN
+  IF st.miss THEN [miss |-> TRUE, failed |-> FALSE, reached |-> FALSE, node |-> 0, comps |-> <<>>]
+  ELSE IF st.err.kind # "" THEN [miss |-> FALSE, failed |-> TRUE, reached |-> FALSE, node |-> st.node, comps |-> <<>>]
+  ELSE IF ws = <<>> THEN
+       [miss |-> FALSE, failed |-> FALSE, reached |-> TRUE, node |-> 1, comps |-> Candidates(cfg, 1, <<>>, target)]
+  ELSE IF st.phase = "scan" /\ st.i = Len(ws) THEN
+       [miss |-> FALSE, failed |-> FALSE, reached |-> TRUE, node |-> st.node,
+        comps |-> Candidates(cfg, st.node, ws[Len(ws)], target)]
+  ELSE \* the last word was consumed as a value, or lies behind `--` / the require-order stop point
+       [miss |-> FALSE, failed |-> FALSE, reached |-> FALSE, node |-> st.node, comps |-> <<>>]
+
+(* Observed completion outcome r against the expected one.                 *)
+CompDiff(cfg, e, r) ==
+  IF r.panic # "" THEN {"panic"}
+  ELSE IF r.hang THEN {"hang"}
+  ELSE
+    (IF r.exits = <<124>> THEN {} ELSE {"exits"})
+    \cup (IF r.ran = <<>> THEN {} ELSE {"ran"})
+    \cup (IF e.failed THEN (IF r.comps = <<>> /\ r.compnil THEN {} ELSE {"comps"})
+          ELSE IF BagEq(e.comps, r.comps) /\ r.sorted THEN {} ELSE {"comps"})
+    \cup (IF e.failed = r.wother THEN {} ELSE {"writer"})
+
+-----------------------------------------------------------------------------
+(* The property statement (C17) written declaratively, for positions where *)
+(* the last word is still interpreted (reached = TRUE).                    *)
+DeclOptions(cfg, n, w) ==   \* declared names/aliases of the level whose name starts with the typed text
+  {k \in Keys(cfg, n) : IsPfx(StripDashes(w), k)}
+DeclWords(cfg, n, w) ==
+  {Node(cfg, c).name : c \in {c \in Children(cfg, n) : IsPfx(w, Node(cfg, c).name)}}
+  \cup {e \in Rng(Node(cfg, n).sugg) : IsPfx(w, e)}
+  \cup (IF Node(cfg, n).dynfn THEN Rng(Node(cfg, n).dynout) ELSE {})
+
+\* name part of an offered option candidate ("--k" or "--k=" or "--k=<hint>")
+CandName(c) ==
+  LET body == Drop(c, 2) e == FirstIdx(body, EQ, 1) IN IF e = 0 THEN body ELSE Take(body, e - 1)
+
+TrimSpace(c) == IF Len(c) > 0 /\ c[Len(c)] = " " THEN Take(c, Len(c) - 1) ELSE c
+
+CandidatesExact(cfg, orc, words0, target) ==
+  LET e  == CompOutcome(cfg, orc, words0, target)
+      words == NormWords(words0)
+      ws == IF words = <<>> THEN <<>> ELSE Tail(words)
+      w  == IF ws = <<>> THEN <<>> ELSE ws[Len(ws)]
+  IN (e.reached /\ ~e.miss) =>
+       IF Len(w) >= 1 /\ w[1] = DASH THEN
+          FirstIdx(w, EQ, 1) = 0 =>
+             \* every declared name with the typed prefix is offered, and nothing else
+             /\ {CandName(e.comps[j]) : j \in 1..Len(e.comps)} \ {<<>>}
+                   = DeclOptions(cfg, e.node, w) \ (IF w = <<DASH>> THEN {} ELSE {<<DASH>>})
+       ELSE {TrimSpace(e.comps[j]) : j \in 1..Len(e.comps)} = DeclWords(cfg, e.node, w)
+
+(* Every offered option or command is accepted by the parser at that place *)
+OfferedAccepted(cfg, orc, words0, target) ==
+  LET e  == CompOutcome(cfg, orc, words0, target)
+      words == NormWords(words0)
+      ws == IF words = <<>> THEN <<>> ELSE Tail(words)
+      w  == IF ws = <<>> THEN <<>> ELSE ws[Len(ws)]
+      pre == IF ws = <<>> THEN <<>> ELSE Take(ws, Len(ws) - 1)
+  IN (e.reached /\ ~e.miss) =>
+       IF Len(w) >= 1 /\ w[1] = DASH THEN
+          FirstIdx(w, EQ, 1) = 0 =>
+            \A j \in 1..Len(e.comps) :
+               LET c == e.comps[j] IN
+               (c # <<DASH>> /\ Len(c) > 2) =>
+                 LET tokc == <<DASH, DASH>> \o CandName(c)
+                     sp == Split(tokc, cfg.mode)
+                 IN sp.is /\ Cardinality(Matches(cfg, e.node, sp.pairs[1].name)) = 1
+       ELSE \A c \in {Node(cfg, k).name : k \in {k \in Children(cfg, e.node) : IsPfx(w, Node(cfg, k).name)}} :
+               LET st == CompRunFrom(cfg, orc, pre \o <<c, <<>>>>, InitState(cfg, orc, pre \o <<c, <<>>>>))
+               IN st.err.kind = "" /\ st.phase = "scan" => st.node = ChildNamed(cfg, e.node, c) \/ IsOptTok(c, cfg.mode)
+
 =============================================================================
